@@ -34,6 +34,7 @@ func c01Desired(r *Rng) []xwDesired {
 
 func c01Gen(r *Rng) xwScn {
 	s := xwScn{Mode: Pick(r, []string{"fn", "fn", "pt"}), Fin: r.Bool(), Refs: []xwRef{}, Objs: []xwObj{}}
+	s.Fresh = s.Mode == "fn" && r.Chance(1, 3)
 	// pre-existing state
 	if r.Chance(2, 3) {
 		i := 0
